@@ -48,6 +48,17 @@ Theorem C02_mmv_decoder_is_canonical : forall bits vals st, table_facts bits val
 Proof. exact mmv_decoder_is_canonical. Qed.
 Print Assumptions C02_mmv_decoder_is_canonical.
 
+(* The lookupTable fast path of HuffmanDecoder.Decode (taken only when nBits >= 8, and whose
+   table Build fills wrongly) is dead: every ReadBit / ReadBits leaves 0 <= nBits <= 7. *)
+Theorem C02_fast_path_dead : forall st n v st', 0 <= r_n st <= 7 -> 0 <= n ->
+  read_bits st n = Some (v, st') -> 0 <= r_n st' <= 7.
+Proof. exact fast_path_dead_read_bits. Qed.
+Print Assumptions C02_fast_path_dead.
+Theorem C02_fast_path_dead_bit : forall st b st', 0 <= r_n st <= 7 ->
+  read_bit st = Some (b, st') -> 0 <= r_n st' <= 7.
+Proof. exact fast_path_dead_read_bit. Qed.
+Print Assumptions C02_fast_path_dead_bit.
+
 (* HuffmanTable.Build (whose lookup-table fill indexes out of range on some invalid tables)
    does not panic on a valid table *)
 Theorem C02_build_no_panic : forall bits vals, table_facts bits vals ->
